@@ -427,6 +427,8 @@ type FuncContract struct {
 	// TrustedEnsures are postconditions assumed at call sites but not proved from the body (each use is listed
 	// in the evidence as an assumption).
 	TrustedEnsures []*Clause
+	// AtCall: assertions checked in the caller's state at every call of the named callee
+	AtCall map[string][]*Clause
 }
 
 type SpecFunc struct {
@@ -462,6 +464,7 @@ type GhostField struct {
 }
 
 type TypeDecl struct {
+	Impl   string // for interface types: the concrete struct type its values point to
 	Name   string
 	Ghost  []GhostField
 	Invs   []*Clause
@@ -477,6 +480,7 @@ type ContractFile struct {
 	Lemmas    []*Lemma
 	Types     map[string]*TypeDecl
 	Axioms    []*Clause
+	GhostVars []GhostField
 }
 
 func parseParams(s string) ([]SParam, error) {
@@ -575,7 +579,7 @@ func ParseContractText(data, path, pkg string) (*ContractFile, error) {
 	keywords := map[string]bool{"spec": true, "func": true, "lemma": true, "type": true, "property": true, "mode": true,
 		"requires": true, "ensures": true, "modifies": true, "loop": true, "inline": true, "allow": true, "assumed": true,
 		"ghost": true, "invariant": true, "opt": true, "uses": true, "axiom": true, "thorough": true, "pure": true, "trusted": true,
-		"backends": true, "timeout": true, "decl": true, "opaque": true, "inline-loop": true}
+		"backends": true, "timeout": true, "decl": true, "opaque": true, "inline-loop": true, "at-call": true, "impl": true}
 	var raws []rawClause
 	for i, ln := range strings.Split(data, "\n") {
 		t := strings.TrimSpace(ln)
@@ -812,6 +816,27 @@ func ParseContractText(data, path, pkg string) (*ContractFile, error) {
 				return nil, errf(rc, "inline-loop <callee> <ordinal> unroll <k>")
 			}
 			curF.Opts["inline-loop:"+f[0]+"."+f[1]] = f[2] + " " + f[3]
+		case "at-call":
+			if curF == nil {
+				return nil, errf(rc, "at-call outside func")
+			}
+			f := strings.Fields(rc.text)
+			if len(f) < 3 || f[1] != "requires" {
+				return nil, errf(rc, "at-call <callee> requires <expr>")
+			}
+			rest := strings.TrimSpace(rc.text[strings.Index(rc.text, "requires")+len("requires"):])
+			c, err := parseClause(rest, rc.line)
+			if err != nil {
+				return nil, fmt.Errorf("%s: %v", path, err)
+			}
+			if curF.AtCall == nil {
+				curF.AtCall = map[string][]*Clause{}
+			}
+			curF.AtCall[f[0]] = append(curF.AtCall[f[0]], c)
+		case "impl":
+			if curT != nil {
+				curT.Impl = strings.TrimSpace(rc.text)
+			}
 		case "assumed":
 			if curF == nil {
 				return nil, errf(rc, "assumed outside func")
@@ -833,8 +858,14 @@ func ParseContractText(data, path, pkg string) (*ContractFile, error) {
 			}
 			curF.Pure = true
 		case "ghost":
-			if curT == nil {
-				return nil, errf(rc, "ghost outside type")
+			if curT == nil || strings.HasPrefix(rc.text, "var ") {
+				// file-level ghost variable:  ghost var <name> <type>
+				f := strings.Fields(rc.text)
+				if len(f) == 3 && f[0] == "var" {
+					cf.GhostVars = append(cf.GhostVars, GhostField{f[1], f[2]})
+					continue
+				}
+				return nil, errf(rc, "ghost outside type (file level: ghost var <name> <type>)")
 			}
 			f := strings.Fields(rc.text)
 			if len(f) != 2 {
